@@ -164,3 +164,41 @@ func VerifC15() {
 	}
 	verif.Reach("end")
 }
+
+// VerifC15Long: longer histories of one machine: four rounds, each an optional operation (replace the
+// spec, replace the state) followed by a message that flips the machine between its two nodes - so that a
+// state it was in two or three reports ago comes back (what the suppression of repeated reports could
+// confuse).
+func VerifC15Long() {
+	verif.MapOrderInsertion(true)
+	ctx := context.Background()
+	c := &Crew{Conf: &CrewConf{Id: "c15", Ctl: &core.Control{Limit: 10}}, Machines: map[string]*crew.Machine{},
+		changed: map[string]*Changed{}, previous: map[string]string{}}
+	store := c15Store{}
+	c.SetMachine(ctx, "a", c15Source(0), nil)
+	rounds := 4
+	if verif.Tier() > 0 {
+		rounds = 5
+	}
+	for r := 0; r < rounds; r++ {
+		rt := "r" + string(rune('0'+r))
+		switch verif.Choose(rt+".op", 3) {
+		case 1:
+			c.SetMachine(ctx, "a", c15Source(0), nil) // the same spec again (a "replacement" all the same)
+		case 2:
+			c.SetMachine(ctx, "a", nil, &core.State{NodeName: "start", Bs: match.NewBindings()})
+		}
+		var msg interface{} = map[string]interface{}{"go": "x"}
+		if verif.Choose(rt+".msg", 3) == 2 {
+			msg = map[string]interface{}{"other": 1.0}
+		}
+		res, err := c.ProcessMsg(ctx, msg)
+		verif.Assert("process-succeeds", err == nil && res != nil)
+		if res == nil {
+			return
+		}
+		store.fold(res.Changed)
+		storeEqualsCrew(store, c)
+	}
+	verif.Reach("end")
+}
